@@ -29,7 +29,7 @@ REQUIRED_THEOREMS = ['broadcast_spec', 'index_roundtrip', 'map2_spec', 'map2_inh
                      'concatenate_split_roundtrip', 'roll_spec', 'stack_shape',
                      'old_stack_rule_negative_axis_differs']
 RULE = ('case = (np_* operation, secure type in {secint24, secfxp32:16, secfld(p) p in {11,101,2^31-1}, GF(2^8)}, '
-        'config in {m=1; m=3 PRSS; m=3 no-PRSS}, seed -> random shapes (<= 3 dims, size <= 24, broadcasting pairs, '
+        'config in {m=1; m=3 PRSS; m=3 no-PRSS; m=5 (t=2) PRSS; thorough also m=5 no-PRSS}, seed -> random shapes (<= 3 dims, size <= 24, broadcasting pairs, '
         'zero-size arrays where accepted) and values inside the type bounds); EVERY operation of the table is run under '
         'every config at least once (systematic sweep), then random extra cases; distinct = distinct (op, kind, config, '
         'shapes, values); non-trivial = result has > 1 element or involves broadcasting / an axis argument')
@@ -45,6 +45,7 @@ ASSUMPTIONS = ['NumPy 2.x from /verif/.deps is the reference semantics for plain
 TRUSTED = ['harness/simnet.py in-process m-party simulator', 'harness/arrays_ops.py + arrays_optable.py operation table and NumPy references']
 
 CONFIGS = [(1, False), (3, False), (3, True)]
+CONFIGS_T2 = [(5, False), (5, True)]   # threshold 2: PRSS subsets of size 3, degree-4 zero sharings, 10 PRSS keys
 
 
 def _worker(case):
@@ -65,7 +66,7 @@ def make_cases(ctx):
     for name in sorted(ops.OPS):
         spec = ops.OPS[name]
         for kind in spec['kinds']:
-            for (m, np_) in CONFIGS:
+            for (m, np_) in CONFIGS + CONFIGS_T2[:ctx.scale(1, 2)]:
                 reps = ctx.scale(1, 4) if m == 3 else ctx.scale(1, 2)
                 for _ in range(reps):
                     cases.append({'op': name, 'kind': kind, 'm': m, 'no_prss': np_, 'seed': rng.randrange(1 << 30)})
@@ -84,7 +85,7 @@ def make_cases(ctx):
     for _ in range(ctx.scale(220, 6000)):
         name = rng.choice(names)
         kind = rng.choice(ops.OPS[name]['kinds'])
-        m, np_ = rng.choice(CONFIGS + [(3, False), (3, True)])
+        m, np_ = rng.choice(CONFIGS + [(3, False), (3, True)] + CONFIGS_T2[:1])
         cases.append({'op': name, 'kind': kind, 'm': m, 'no_prss': np_, 'seed': rng.randrange(1 << 30)})
     return cases
 
@@ -166,7 +167,7 @@ def search(ctx):
     for _ in range(ctx.scale(3000, 20000)):
         name = rng.choice(names)
         kind = rng.choice(ops.OPS[name]['kinds'])
-        m, np_ = rng.choice(CONFIGS)
+        m, np_ = rng.choice(CONFIGS + CONFIGS_T2)
         cases.append({'op': name, 'kind': kind, 'm': m, 'no_prss': np_, 'seed': rng.randrange(1 << 30)})
     run_cases(ctx, cases, 'search')
 
